@@ -8,7 +8,20 @@ import warnings
 from fractions import Fraction
 
 from .. import common
-from ..common import rat, unrat
+from functools import lru_cache
+
+from ..common import rat
+from ..common import unrat as _unrat_common
+
+
+@lru_cache(maxsize=400000)
+def _unrat_text(j):
+    return _unrat_common(j)
+
+
+def unrat(j):
+    """common.unrat with a memo for the textual 'p/q' form (big dictionaries are read many times)"""
+    return _unrat_text(j) if isinstance(j, str) else _unrat_common(j)
 
 PROP = "C17"
 RULE = ("kinds construct / subdist / saveload / dist (one call on fresh objects) and hist / pool / files (a history of "
@@ -19,7 +32,10 @@ RULE = ("kinds construct / subdist / saveload / dist (one call on fresh objects)
         "with different supports, an un-normalised constructor input with >= 2 outcomes, a save/load of >= 2 outcomes "
         "of width >= 2, a history asking one object for the same qubit set in two orders or touching >= 2 sibling "
         "objects, a distance history re-using one parameter dictionary on >= 2 different pairs, a file history that "
-        "overwrites a path with different content and loads it again; distinct = distinct canonical JSON of the case")
+        "overwrites a path with different content and loads it again; histories also edit objects in place (swap / "
+        "double / rename an outcome) before asking again, take the marginal of a marginal, write siblings of equal "
+        "file size over each other, save empty and 64+ element lists; sizes: 64-300 outcomes, widths to 70, qubit "
+        "lists to 15, an invalid item at position >= 64; distinct = distinct canonical JSON of the case")
 TRUSTED = [
     "Python float arithmetic: the model computes in exact rationals; implementation and model are compared exactly "
     "on dyadic inputs whose sums/normalisations are exact in binary64 and within 1e-12 (relative) otherwise; "
@@ -46,6 +62,12 @@ ASSUMPTIONS = [
     "object stays a valid distribution) and may edit objects RETURNED by the library; every later answer is judged "
     "against the current content of the object asked",
     "documented defaults: sigma = 1.0 and epsilon = 1e-9 when the parameter dictionary lacks the key",
+    "exotic but legal inputs used: weights as Python ints (counts, also > 2^53) / numpy.float64, outcome entries as "
+    "numpy.int64 and as huge ints (2^61 - 1, 2^61: hash twins of 0 and 1), qubit indices as numpy.int64, bandwidth / "
+    "epsilon as int / numpy.float64 / list / tuple / ndarray, file names as pathlib.Path for the savers (the "
+    "loaders take str or an open file), an empty list for the plural saver; weights spanning 2^-40..2^40 "
+    "(stored values and marginals are judged with RELATIVE tolerances 2e-9 / 1e-12), totals of 1 +- 2^-10..2^-36, "
+    "totals just above the smallest normal double; dictionaries of 64-300 outcomes, registers up to width 70",
     "MMD on registers of width >= 32 overflowed int64 before the repair b6e2a42 (fixed finding mmd-wide-register-overflow); "
     "it is now compared and judged like any other register",
 ]
@@ -142,9 +164,11 @@ def _mk_params(ps):
             par["sigma"] = tuple(vals) if st == "tuple" else np.array(vals) if st == "array" else vals
         else:
             f = unrat(sg)
-            par["sigma"] = int(f) if (ps.get("stype") == "int" and f.denominator == 1) else float(f)
+            par["sigma"] = (int(f) if (ps.get("stype") == "int" and f.denominator == 1)
+                            else np.float64(float(f)) if ps.get("stype") == "npfloat" else float(f))
     if ps.get("epsilon") is not None:
-        par["epsilon"] = float(unrat(ps["epsilon"]))
+        e = float(unrat(ps["epsilon"]))
+        par["epsilon"] = np.float64(e) if ps.get("etype") == "npfloat" else e
     return par
 
 
@@ -158,7 +182,7 @@ def _sigma_eps(ps):
 
 def _dist_params(c):
     """the two parameter specs of a `dist` case (one for the MMD calls, one for the log-likelihood calls)"""
-    return ({"sigma": c.get("sigma"), "stype": c.get("stype")}, {"epsilon": c.get("eps")})
+    return ({"sigma": c.get("sigma"), "stype": c.get("stype")}, {"epsilon": c.get("eps"), "etype": c.get("etype")})
 
 
 def _guard(fn):
@@ -240,6 +264,42 @@ def corpus():
          "sigma": 1, "eps": "1/1000000000"},
         {"kind": "dist", "p": [[[0] * 32, "1/2"], [[1, 1] + [0] * 30, "1/2"]], "q": [[[0] * 32, 1]], "sigma": 1,
          "eps": "1/1000000000"},
+        # ---- hardening pass: sizes, magnitudes, exotic-but-legal types, edits in place everywhere
+        # 70 outcomes, the invalid item at position 66 (negative value / key of another length)
+        {"kind": "construct", "items": [[[(i >> b) & 1 for b in range(7)], -1 if i == 66 else 1] for i in range(70)],
+         "normalize": True, "exact": False},
+        {"kind": "construct", "items": [["".join(str((i >> b) & 1) for b in range(7 if i != 66 else 8)), 1]
+                                        for i in range(70)], "normalize": True, "exact": False},
+        # weights spanning 80 binary orders of magnitude; integer counts beyond 2^62; hash-colliding outcomes
+        {"kind": "construct", "items": [[[0, 1], 1099511627776], [[1, 1], "1/1099511627776"], [[1, 0], 3]],
+         "normalize": True, "exact": False},
+        {"kind": "construct", "items": [[[0], 4611686018427387904], [[1], 4611686018427387905], [[2], 4611686018427387906]],
+         "normalize": True, "exact": False, "vtype": "int"},
+        {"kind": "construct", "items": [[[0, 0], "1/8"], [[2305843009213693951, 0], "1/4"], [[1, 2305843009213693952], "1/8"],
+                                        [[2305843009213693952, 1], "1/2"]], "normalize": True, "exact": True},
+        {"kind": "subdist", "items": [[[0, 0], "1/8"], [[2305843009213693951, 0], "1/4"], [[1, 2305843009213693952], "1/8"],
+                                      [[2305843009213693952, 1], "1/2"]], "normalize": True, "qubits": [0], "exact": True},
+        {"kind": "subdist", "items": [[[int(ch) for ch in format(i * 37 % 4096, "012b")], 1] for i in range(1, 9)],
+         "normalize": True, "qubits": [11, 3, 0, 7, 9, 1, 10, 2, 5], "exact": True, "qtype": "npint"},
+        # an outcome renamed in place, the marginal of a marginal
+        {"kind": "hist", "exact": True, "qtype": "npint",
+         "specs": [{"items": [[[0, 0, 1], "1/8"], [[0, 1, 0], "1/4"], [[1, 0, 1], "1/2"], [[1, 1, 0], "1/8"]]}],
+         "steps": [["sub", 0, [2, 0], False], ["rekey", 0, 1, [1, 1, 1]], ["sub", 0, [2, 0], False],
+                   ["chain", 0, [2, 0, 1], [1]], ["chain", 0, [1, 2], [1, 0]], ["sub", 0, [0], False]]},
+        # members of a pool edited in place between the calls
+        {"kind": "pool",
+         "specs": [{"items": [["00", "1/2"], ["01", "1/4"], ["11", "1/4"]]}, {"items": [["00", "1/8"], ["10", "7/8"]]}],
+         "params": [{"sigma": 2, "stype": "npfloat"}, {"sigma": [1000, "1/100"], "stype": "array"},
+                    {"epsilon": "1/100", "etype": "npfloat"}, {}],
+         "steps": [["mmd", 0, 1, 0, "direct"], ["swap", 0, 0, 2], ["mmd", 0, 1, 0, "direct"], ["mmd", 1, 0, 0, "eval"],
+                   ["nll", 0, 1, 2, "direct"], ["rekey", 1, 1, [1, 1]], ["nll", 0, 1, 2, "direct"],
+                   ["mmd", 0, 1, 1, "direct"], ["jsd", 1, 0, 3, "direct"], ["jsd", 0, 1, 3, "direct"]]},
+        # an object edited and written again; an empty list; paths given as pathlib.Path
+        {"kind": "files", "exact": True, "ptype": "pathlib",
+         "specs": [{"items": [["00", "1/4"], ["01", "1/4"], ["10", "1/2"]]}, {"items": [["00", "1/2"], ["01", "1/4"], ["10", "1/4"]]}],
+         "steps": [["save", 0, 0], ["load", 0, "path"], ["swap", 0, 0, 2], ["save", 0, 0], ["load", 0, "path"],
+                   ["save", 0, 1], ["load", 0, "path"], ["saves", 1, []], ["loads", 1, "path"], ["saves", 1, [0, 1, 0]],
+                   ["loads", 1, "fobj"], ["rekey", 1, 0, [1, 1]], ["saves", 1, [1, 0]], ["loads", 1, "path"]]},
     ]
 
 
@@ -282,6 +342,20 @@ def _weights(rng, n, mode):
         return [Fraction(1, 2)] * 1 + [Fraction(1, 2) + Fraction(1, 2 ** 28)] + [Fraction(0)] * (n - 2), False
     if mode == "counts":  # raw integer counts (arbitrary total)
         return [Fraction(rng.randrange(0, 60)) for _ in range(n)], False
+    if mode == "bigcounts":  # integer counts beyond 2^53
+        return [Fraction(rng.randrange(0, 2 ** rng.choice([54, 60, 62]))) for _ in range(n)], False
+    if mode == "uniform":  # all weights equal
+        return [Fraction(rng.randrange(1, 40), rng.choice([1, 1, 3, 8]))] * n, False
+    if mode == "magn":  # weights spanning many orders of magnitude (all exactly representable)
+        return [Fraction(rng.randrange(1, 8)) * Fraction(2) ** rng.randrange(-40, 41) for _ in range(n)], False
+    if mode == "tiny":  # total just above the smallest normal double
+        return [Fraction(rng.randrange(1, 9), 2 ** 1020) for _ in range(n)], False
+    if mode == "off_one":  # total 1 + d for d on both sides of every tolerance the library uses
+        ws, _ = _weights(rng, n, "dyadic_norm")
+        d = Fraction(rng.choice([1, -1]), 2 ** rng.choice([10, 17, 24, 29, 31, 36]))
+        i = max(range(n), key=lambda t: ws[t])
+        ws[i] += d
+        return ws, False
     return [Fraction(rng.randrange(0, 1000), rng.randrange(1, 1000)) for _ in range(n)], False
 
 
@@ -295,9 +369,17 @@ def _spell(rng, key, form):
     return list(key)
 
 
+# outcome entries whose hashes collide pairwise (hash(2**61 - 1) == hash(0), hash(2**61) == hash(1))
+_TWINS = [0, 1, 2 ** 61 - 1, 2 ** 61]
+
+
 def _items(rng, w, n, base, form=None, mode=None):
-    keys = _keys(rng, w, n, base)
-    mode = mode or rng.choice(["dyadic_norm", "dyadic", "dyadic", "any", "any", "counts"])
+    if base == "twins":
+        keys = [[_TWINS[e] for e in k] for k in _keys(rng, w, n, 4)]
+    else:
+        keys = _keys(rng, w, n, base)
+    mode = mode or rng.choice(["dyadic_norm", "dyadic", "dyadic", "any", "any", "counts", "uniform", "magn",
+                               "bigcounts", "off_one"])
     if mode in ("near_one", "far_one") and len(keys) < 2:
         mode = "dyadic"
     ws, exact = _weights(rng, len(keys), mode)
@@ -314,7 +396,22 @@ def _items(rng, w, n, base, form=None, mode=None):
 def _malformed_construct(rng):
     w = rng.randrange(1, 4)
     items, _ = _items(rng, w, rng.randrange(1, 5), 2)
-    pick = rng.randrange(18)
+    pick = rng.choice(list(range(21)) + [12, 13, 13, 18, 19])
+    if pick >= 18:  # one bad item at a late position (>= 64) of a big dictionary
+        w = rng.randrange(8, 12)
+        items, _ = _items(rng, w, rng.randrange(70, 200), 2, form=rng.choice(["str", "tuple", "comma"]),
+                          mode=rng.choice(["dyadic", "any", "counts"]))
+        at = rng.randrange(64, len(items) + 1)
+        bad = rng.randrange(4)
+        if bad == 0:
+            items[at - 1][1] = rat(-Fraction(rng.randrange(1, 9), 8))
+        elif bad == 1:
+            items.insert(at, [[0] * (w + 1), "1/4"])
+        elif bad == 2:
+            items.insert(at, [[-1] + [0] * (w - 1), "1/4"])
+        else:
+            items.insert(at, ["0" * (w - 1), "1/4"])
+        return items
     if pick == 0:
         items = []
     elif pick == 1:
@@ -374,9 +471,12 @@ def _malformed_construct(rng):
     return items
 
 
-def _vk(rng):
-    """value / entry types of the caller's dictionary"""
-    return rng.choice(["float", "float", "float", "int", "npfloat"]), rng.choice(["py", "py", "py", "npint"])
+def _vk(rng, items=None):
+    """value / entry types of the caller's dictionary (integer counts are mostly passed as Python ints)"""
+    vt = rng.choice(["float", "float", "float", "int", "npfloat"])
+    if items and all(isinstance(v, int) for _, v in items) and any(v > 1 for _, v in items) and rng.random() < 0.6:
+        vt = "int"
+    return vt, rng.choice(["py", "py", "py", "npint"])
 
 
 def _respell(rng, items, form):
@@ -385,6 +485,15 @@ def _respell(rng, items, form):
         f = rng.choice(["str", "tuple", "comma"]) if form == "mixed" else form
         out.append([_spell(rng, list(_parse_key(k)), f), v])
     return out
+
+
+def _fresh_key(rng, have, w, base):
+    """an outcome of the same alphabet that is not in `have` (None if none was found)"""
+    cands = [[_TWINS[e] for e in k] for k in _keys(rng, w, 6, 4)] if base == "twins" else _keys(rng, w, 6, base)
+    for cand in cands:
+        if tuple(cand) not in have:
+            return list(cand)
+    return None
 
 
 def _siblings(rng, items, w, base):
@@ -403,11 +512,9 @@ def _siblings(rng, items, w, base):
         vs = vs[1:] + vs[:1]
         its = [[k, v] for (k, _), v in zip(its, vs)]
     elif kind == "key":
-        have = {_parse_key(k) for k, _ in its}
-        for cand in _keys(rng, w, 6, base):
-            if tuple(cand) not in have:
-                its[rng.randrange(len(its))][0] = list(cand)
-                break
+        cand = _fresh_key(rng, {_parse_key(k) for k, _ in its}, w, base)
+        if cand is not None:
+            its[rng.randrange(len(its))][0] = cand
     elif kind == "order":
         its = its[::-1] if rng.random() < 0.5 else rng.sample(its, len(its))
     elif kind == "spelling":
@@ -421,12 +528,12 @@ def _gen_hist(rng, big):
         w, base = rng.randrange(11, 15), 2
     else:
         w = rng.choice([2, 3, 3, 4, 4, 5] + ([6] if big else []))
-        base = rng.choice([2, 2, 2, 10])
-    mode = rng.choice(["dyadic_norm", "dyadic", "dyadic", "any", "counts"])
-    items, exact = _items(rng, w, rng.randrange(2, 9), base, form=rng.choice(["tuple", "tuple", "str", "comma", "mixed"]),
-                          mode=mode)
+        base = rng.choice([2, 2, 2, 10, "twins"])
+    mode = rng.choice(["dyadic_norm", "dyadic", "dyadic", "any", "counts", "magn", "uniform", "off_one", "near_one"])
+    nout = rng.randrange(64, 140) if (wide and rng.random() < 0.3) else rng.randrange(2, 9)
+    items, exact = _items(rng, w, nout, base, form=rng.choice(["tuple", "tuple", "str", "comma", "mixed"]), mode=mode)
     nz = rng.random() < 0.75
-    vt, kt = _vk(rng)
+    vt, kt = _vk(rng, items)
     specs = [_spec(items, nz, vt, kt)]
     for _ in range(rng.choice([0, 1, 1, 2])):
         specs.append(_spec(_siblings(rng, items, w, base), nz if rng.random() < 0.8 else not nz, vt, kt))
@@ -435,7 +542,7 @@ def _gen_hist(rng, big):
     else:
         lists = []
         for _ in range(rng.randrange(2, 5)):
-            sub = rng.sample(range(w), rng.randrange(1, min(w, 4) + 1))
+            sub = rng.sample(range(w), rng.randrange(1, (w if rng.random() < 0.4 else min(w, 4)) + 1))
             if wide and rng.random() < 0.7:
                 sub[0] = rng.randrange(10, w)
                 sub = list(dict.fromkeys(sub))
@@ -454,13 +561,25 @@ def _gen_hist(rng, big):
         elif r < 0.17 and len(specs) >= 2:
             steps.append(["replace", sidx, rng.randrange(len(specs))])
         elif r < 0.20:
-            steps.append(["sub", sidx, qs + [rng.choice(qs + [w])], False])
+            bad = list(qs)
+            bad.insert(rng.randrange(len(bad) + 1), rng.choice(qs + [w]))
+            steps.append(["sub", sidx, bad, False])
         elif r < 0.30:
             steps.append(["sub", rng.randrange(len(specs)), qs, False])
+        elif r < 0.36:  # an outcome is renamed in place
+            cand = _fresh_key(rng, {_parse_key(k) for sp in specs for k, _ in sp["items"]}, w, base)
+            if cand is not None:
+                steps.append(["rekey", sidx, rng.randrange(8), cand])
+        elif r < 0.46 and len(qs) >= 2:  # the marginal of a marginal
+            inner = rng.sample(range(len(qs)), rng.randrange(1, len(qs) + 1))
+            steps.append(["chain", sidx, qs, inner])
     for st in rng.sample(steps, min(4, len(steps))):  # ask again at the end
         if st[0] == "sub":
             steps.append(["sub", st[1], st[2], False])
-    return {"kind": "hist", "specs": specs, "steps": steps, "exact": exact}
+    c = {"kind": "hist", "specs": specs, "steps": steps, "exact": exact}
+    if rng.random() < 0.2:
+        c["qtype"] = "npint"
+    return c
 
 
 def _rand_params(rng, which):
@@ -472,11 +591,18 @@ def _rand_params(rng, which):
         elif r < 0.6:
             den = rng.choice([1, 1, 2, 10, 16])
             ps["sigma"] = rat(Fraction(rng.randrange(1, 80), den))
+            if rng.random() < 0.3:  # bandwidths far from 1 in both directions
+                den = 1
+                ps["sigma"] = rat(rng.choice([Fraction(1, 1000), Fraction(1, 50), Fraction(500), Fraction(10 ** 4),
+                                              Fraction(10 ** 6), Fraction(10 ** 9), Fraction(2 ** 40)]))
             if den == 1 and rng.random() < 0.5:
                 ps["stype"] = "int"
+            elif rng.random() < 0.3:
+                ps["stype"] = "npfloat"
         else:
             n = rng.randrange(1, 4)
-            sg = [rat(Fraction(rng.randrange(1, 80), rng.choice([1, 4, 10]))) for _ in range(n)]
+            sg = [rat(Fraction(rng.randrange(1, 80), rng.choice([1, 4, 10])) * rng.choice([1, 1, 1, 1000, Fraction(1, 100)]))
+                  for _ in range(n)]
             if n >= 2 and rng.random() < 0.3:
                 sg[1] = sg[0]  # repeated equal widths
             ps["sigma"] = sg
@@ -484,13 +610,16 @@ def _rand_params(rng, which):
     if which in ("epsilon", "both"):
         if rng.random() >= 0.15:
             ps["epsilon"] = rat(rng.choice([Fraction(1, 10 ** 9), Fraction(1, 10 ** 6), Fraction(1, 1000), Fraction(1, 100),
-                                            Fraction(1, 8), Fraction(1, 2)]))
+                                            Fraction(1, 8), Fraction(1, 2), Fraction(1, 10 ** 12), Fraction(1)]))
+            if rng.random() < 0.25:
+                ps["etype"] = "npfloat"
     return ps
 
 
 def _gen_pool(rng, big):
-    w = rng.choice([1, 2, 2, 3, 3, 4, 6, 9, 12] + ([16, 20, 31] if big else [16]))
-    items, _ = _items(rng, w, rng.randrange(2, 9), 2)
+    w = rng.choice([1, 2, 2, 3, 3, 4, 6, 9, 12, 40, 70] + ([16, 20, 31] if big else [16]))
+    nout = rng.randrange(64, 100) if (w >= 9 and rng.random() < 0.35) else rng.randrange(2, 9)
+    items, _ = _items(rng, w, nout, 2)
     specs = [_spec(items)]
     for _ in range(rng.randrange(1, 4)):
         specs.append(_spec(_siblings(rng, items, w, 2)))
@@ -519,6 +648,15 @@ def _gen_pool(rng, big):
             steps.append([fn, i, rng.randrange(n), pi, via])  # one component changed
         elif r < 0.85:
             steps.append([fn, i, j, (pi // 2) * 2 + (1 - pi % 2), via])  # other parameters, same pair
+        r = rng.random()
+        if r < 0.12:  # a member is edited in place (stays normalised), then asked about again
+            steps.append(["swap", i, rng.randrange(100), rng.randrange(100)])
+            steps.append([fn, i, j, pi, via])
+        elif r < 0.2:
+            cand = _fresh_key(rng, {_parse_key(k) for sp in specs for k, _ in sp["items"]}, w, 2)
+            if cand is not None:
+                steps.append(["rekey", j, rng.randrange(100), cand])
+                steps.append([fn, i, j, pi, via])
     for st in rng.sample(steps, min(3, len(steps))):
         steps.append(list(st))
     return {"kind": "pool", "specs": specs, "params": params, "steps": steps}
@@ -528,34 +666,54 @@ def _gen_files(rng, big):
     specs, fam = [], []
     exact = True
     for _ in range(rng.randrange(2, 5)):
-        w = rng.choice([1, 2, 2, 3, 5, 11])
-        base = rng.choice([2, 2, 10, 25, 1000])
+        w = rng.choice([1, 2, 2, 3, 5, 11, 40])
+        base = rng.choice([2, 2, 10, 25, 1000, "twins"])
         if w == 1:
-            base = min(base, 10)  # the F7 class (known finding) stays in the corpus / saveload kind
-        items, ex = _items(rng, w, rng.randrange(1, 9), base)
+            base = rng.choice([2, 10])  # the F7 class (known finding) stays in the corpus / saveload kind
+        nout = rng.randrange(64, 200) if (w >= 11 and rng.random() < 0.3) else rng.randrange(1, 9)
+        items, ex = _items(rng, w, nout, base)
         exact = exact and ex
-        vt, kt = _vk(rng)
+        vt, kt = _vk(rng, items)
         specs.append(_spec(items, rng.random() < 0.9, vt, kt))
         if rng.random() < 0.6:
             specs.append(_spec(_siblings(rng, items, w, base), specs[-1]["normalize"], vt, kt))
             fam.append([len(specs) - 2, len(specs) - 1])
     n = len(specs)
     content = [None, None]
+    held = [None, None]
     steps = []
+    sib = {}
+    for a, b in fam:
+        sib[a], sib[b] = b, a
     for _ in range(rng.randrange(5, 12)):
         pth = rng.randrange(2)
         if content[pth] is None or rng.random() < 0.45:
             if rng.random() < 0.5:
                 i = rng.randrange(n)
+                if content[pth] == "one" and held[pth] in sib and rng.random() < 0.6:
+                    i = sib[held[pth]]  # a sibling (often a file of the same size) written over the previous one
                 steps.append(["save", pth, i])
-                content[pth] = "one"
+                content[pth], held[pth] = "one", i
             else:
-                ids = [rng.randrange(n) for _ in range(rng.randrange(1, 5))]
-                if fam and rng.random() < 0.6:  # siblings (e.g. the same outcomes with other weights) in one file
+                r = rng.random()
+                ids = [rng.randrange(n) for _ in range(0 if r < 0.1 else rng.randrange(64, 80) if r < 0.2
+                                                       else rng.randrange(1, 5))]
+                if fam and ids and rng.random() < 0.6:  # siblings (e.g. the same outcomes with other weights) in one file
                     ids += rng.choice(fam)
                     rng.shuffle(ids)
+                if content[pth] == "many" and held[pth] and rng.random() < 0.4:
+                    ids = [sib.get(i, i) for i in held[pth]]
                 steps.append(["saves", pth, ids])
-                content[pth] = "many"
+                content[pth], held[pth] = "many", ids
+        elif rng.random() < 0.4:  # an object is edited in place and written again
+            i = rng.randrange(n)
+            steps.append(["swap", i, rng.randrange(100), rng.randrange(100)])
+            if content[pth] == "one":
+                steps.append(["save", pth, i])
+                held[pth] = i
+            else:
+                steps.append(["saves", pth, [i, i]])
+                held[pth] = [i, i]
         mode = rng.choice(["path", "path", "fobj"])
         steps.append(["load" if content[pth] == "one" else "loads", pth, mode])
         r = rng.random()
@@ -563,7 +721,10 @@ def _gen_files(rng, big):
             steps.append(["poke"])
         if r < 0.4:
             steps.append(["load" if content[pth] == "one" else "loads", pth, rng.choice(["path", "fobj"])])
-    return {"kind": "files", "specs": specs, "steps": steps, "exact": exact}
+    c = {"kind": "files", "specs": specs, "steps": steps, "exact": exact}
+    if rng.random() < 0.3:
+        c["ptype"] = "pathlib"
+    return c
 
 
 def generate(rng, tier):
@@ -572,20 +733,24 @@ def generate(rng, tier):
     # ---- constructor
     for _ in range(900 if big else 150):
         w = rng.choice([0, 1, 1, 2, 2, 3, 4, 6] if big else [0, 1, 1, 2, 2, 3, 4])
-        base = rng.choice([2, 2, 2, 10, 40])
-        mode = rng.choice([None, None, None, "near_one", "far_one"])
-        items, exact = _items(rng, w, rng.randrange(1, 9), base, mode=mode)
-        vt, kt = _vk(rng)
+        base = rng.choice([2, 2, 2, 10, 40, "twins"])
+        mode = rng.choice([None, None, None, None, "near_one", "far_one", "tiny"])
+        nout = rng.randrange(1, 9)
+        if rng.random() < 0.12:  # big dictionaries / wide registers
+            w = rng.choice([9, 12, 16, 33, 64, 70])
+            nout = rng.randrange(64, 300)
+        items, exact = _items(rng, w, nout, base, mode=mode)
+        vt, kt = _vk(rng, items)
         cases.append({"kind": "construct", "items": items, "normalize": rng.random() < 0.85, "exact": exact,
                       "vtype": vt, "ktype": kt})
     for _ in range(60 if big else 12):  # from a probability vector (all 2^n bitstrings, zeros included)
-        n = rng.randrange(1, 5)
+        n = rng.choice([1, 2, 3, 4, 6, 7])
         ws, exact = _weights(rng, 2 ** n, rng.choice(["dyadic_norm", "dyadic", "any"]))
         if sum(ws) == 0:
             ws[0] = Fraction(1)
         items = [[list(k), rat(v)] for k, v in zip(itertools.product([0, 1], repeat=n), ws)]
         cases.append({"kind": "construct", "via": "probs", "items": items, "normalize": True, "exact": exact})
-    for _ in range(400 if big else 70):
+    for _ in range(500 if big else 110):
         cases.append({"kind": "construct", "items": _malformed_construct(rng), "normalize": rng.random() < 0.8,
                       "exact": False})
     # ---- marginals: every ordered sub-list of the qubits for width <= 4
@@ -608,27 +773,33 @@ def generate(rng, tier):
         if bad < 0.06:
             qs = []
         elif bad < 0.12:
-            qs = qs + [qs[0]]
+            qs = list(qs)
+            qs.insert(rng.randrange(len(qs) + 1), rng.choice(qs))  # a duplicate, anywhere
         elif bad < 0.18:
-            qs = qs + [w + rng.randrange(0, 2)]
+            qs = list(qs)
+            qs.insert(rng.randrange(len(qs) + 1), w + rng.randrange(0, 2))  # out of range, anywhere
         elif bad < 0.22:
             qs = [-rng.randrange(1, w + 3)] + qs[1:]
-        vt, kt = _vk(rng)
+        vt, kt = _vk(rng, items)
         cases.append({"kind": "subdist", "items": items, "normalize": rng.random() < 0.9, "qubits": qs,
                       "exact": exact, "vtype": vt, "ktype": kt})
-    for _ in range(100 if big else 20):  # wide registers: qubit indices of two digits
-        w = rng.randrange(11, 16 if big else 14)
-        items, exact = _items(rng, w, rng.randrange(2, 10), rng.choice([2, 2, 10]))
-        qs = rng.sample(range(w), rng.randrange(1, 5))
+    for _ in range(150 if big else 30):  # wide registers: qubit indices of two digits, long lists, many outcomes
+        w = rng.choice([11, 12, 13, 14, 15] if big else [11, 12, 13]) if rng.random() < 0.8 else rng.choice([33, 64, 70])
+        nout = rng.randrange(64, 300) if rng.random() < 0.3 else rng.randrange(2, 10)
+        items, exact = _items(rng, w, nout, rng.choice([2, 2, 10, "twins"]))
+        qs = rng.sample(range(w), rng.randrange(8, w + 1) if rng.random() < 0.4 else rng.randrange(1, 5))
         qs[rng.randrange(len(qs))] = rng.randrange(10, w)
         qs = list(dict.fromkeys(qs))
-        cases.append({"kind": "subdist", "items": items, "normalize": rng.random() < 0.9, "qubits": qs, "exact": exact})
+        c = {"kind": "subdist", "items": items, "normalize": rng.random() < 0.9, "qubits": qs, "exact": exact}
+        if rng.random() < 0.3:
+            c["qtype"] = "npint"
+        cases.append(c)
     # ---- histories on long-lived objects
     for _ in range(800 if big else 120):
         cases.append(_gen_hist(rng, big))
     for _ in range(800 if big else 120):
         cases.append(_gen_pool(rng, big))
-    for _ in range(500 if big else 80):
+    for _ in range(600 if big else 120):
         cases.append(_gen_files(rng, big))
     # ---- save / load
     for _ in range(500 if big else 90):
@@ -636,28 +807,37 @@ def generate(rng, tier):
         base = rng.choice([2, 2, 10, 10, 25, 1000])
         if w == 1 and base > 10 and rng.random() < 0.8:
             base = 10  # the F7 class is in the corpus; keep most generated cases inside the domain
-        items, exact = _items(rng, w, rng.randrange(1, 9), base)
-        vt, kt = _vk(rng)
+        nout = rng.randrange(1, 9)
+        r = rng.random()
+        if r < 0.1:
+            w, nout = rng.choice([9, 12, 33, 64, 70]), rng.randrange(64, 300)
+        elif r < 0.2 and w >= 2:
+            base = "twins"
+        items, exact = _items(rng, w, nout, base)
+        vt, kt = _vk(rng, items)
         cases.append({"kind": "saveload", "items": items, "normalize": rng.random() < 0.9, "exact": exact,
                       "many": rng.random() < 0.3, "vtype": vt, "ktype": kt})
     # ---- distances
     for _ in range(900 if big else 160):
         w = rng.randrange(1, 6 if big else 5)
-        if rng.random() < 0.12:
+        if rng.random() < 0.2:
             w = rng.choice([8, 9, 10, 12, 16, 24, 31])
         base = 2 if rng.random() < 0.93 else 3
-        p, _ = _items(rng, w, rng.randrange(1, 9), base)
+        nbig = w >= 8 and rng.random() < 0.5
+        p, _ = _items(rng, w, rng.randrange(40, 90) if nbig else rng.randrange(1, 9), base)
         r = rng.random()
         if r < 0.12:
             q = p
         elif r < 0.30 and len(p) >= 2:
             q = _siblings(rng, p, w, base)
         else:
-            q, _ = _items(rng, w, rng.randrange(1, 9), base)
+            q, _ = _items(rng, w, rng.randrange(40, 90) if nbig else rng.randrange(1, 9), base)
         ps = _rand_params(rng, "both")
         c = {"kind": "dist", "p": p, "q": q, "sigma": ps.get("sigma"), "eps": ps.get("epsilon")}
         if ps.get("stype"):
             c["stype"] = ps["stype"]
+        if ps.get("etype"):
+            c["etype"] = ps["etype"]
         cases.append(c)
     for _ in range(40 if big else 6):  # registers of width >= 32 (MMD judged by the oracle only, see ASSUMPTIONS)
         w = rng.choice([32, 33, 40, 48, 63, 64, 65, 70])
@@ -692,8 +872,9 @@ def nontrivial(c):
         return reord or len({st[1] for st in subs}) >= 2
     if k == "pool":
         pairs = {}
-        for _fn, i, j, pi, _via in c["steps"]:
-            pairs.setdefault(pi, set()).add(frozenset((i, j)))
+        for st in c["steps"]:
+            if st[0] in _FNS:
+                pairs.setdefault(st[3], set()).add(frozenset((st[1], st[2])))
         return any(len(v) >= 2 for v in pairs.values())
     if k == "files":
         content, rewritten = {}, set()
@@ -709,6 +890,34 @@ def nontrivial(c):
 
 
 # ---------------------------------------------------------------- implementation adapter
+def _qlist(qs, qtype):
+    """the qubit list as the caller writes it (Python ints, or numpy integers)"""
+    if qtype == "npint":
+        import numpy as np
+        return [np.int64(q) for q in qs]
+    return list(qs)
+
+
+def _edit_in_place(dd, st):
+    """edit steps of the histories, applied to a `distribution_dict` IN PLACE (the dictionary object stays the same):
+    [swap, obj, a, b] exchanges two values, [scale, obj, a] doubles one, [rekey, obj, a, newkey] renames an outcome"""
+    keys = list(dd.keys())
+    a = keys[st[2] % len(keys)]
+    if st[0] == "swap":
+        b = keys[st[3] % len(keys)]
+        dd[a], dd[b] = dd[b], dd[a]
+    elif st[0] == "scale":
+        dd[a] = dd[a] * 2
+    elif st[0] == "rekey":
+        new = tuple(st[3])
+        if new not in dd:
+            items = [(new if k == a else k, v) for k, v in dd.items()]
+            dd.clear()
+            dd.update(items)
+    else:
+        raise AssertionError("unknown edit")
+
+
 def _quiet(fn):
     with warnings.catch_warnings():
         warnings.simplefilter("ignore")
@@ -725,10 +934,11 @@ def run_impl(c):
         if isinstance(src, str):
             return {"source": src}
         before = _canon_dict(src.distribution_dict)
-        res = _guard(lambda: _quiet(lambda: _canon_dict(src.subdistribution(list(c["qubits"])).distribution_dict)))
+        qt = c.get("qtype")
+        res = _guard(lambda: _quiet(lambda: _canon_dict(src.subdistribution(_qlist(c["qubits"], qt)).distribution_dict)))
         mid = _canon_dict(src.distribution_dict)
         # the same question again, on the same object (a fresh list: whether the list itself is modified is C20's)
-        res2 = _guard(lambda: _quiet(lambda: _canon_dict(src.subdistribution(list(c["qubits"])).distribution_dict)))
+        res2 = _guard(lambda: _quiet(lambda: _canon_dict(src.subdistribution(_qlist(c["qubits"], qt)).distribution_dict)))
         return {"source": before, "source_after": mid, "res": res, "res_again": res2,
                 "source_after_again": _canon_dict(src.distribution_dict)}
     if k == "saveload":
@@ -771,6 +981,13 @@ def _run_construct(D, c):
         inp[keys[0]] = inp[keys[0]] + 5
         inp[keys[-1]] = inp[keys[-1]] * 3
     out["res_after_input_edit"] = _canon_dict(obj.distribution_dict)
+    # a third object from the SAME dictionary object, whose content is different now
+    out["items_third"] = [[kk if isinstance(kk, str) else [int(e) for e in kk] if isinstance(kk, tuple) else None,
+                           rat(Fraction(v))] for kk, v in inp.items()]
+    before3 = list(inp.items())
+    obj3 = _guard(make)
+    out["res_third"] = obj3 if isinstance(obj3, str) else _canon_dict(obj3.distribution_dict)
+    out["third_intact"] = list(inp.items()) == before3
     snap = list(inp.items())
     dd = obj.distribution_dict
     for kk in list(dd.keys()):
@@ -856,31 +1073,33 @@ def _run_hist(D, c):
     init = [x if isinstance(x, str) else _canon_dict(x.distribution_dict) for x in srcs]
     if any(isinstance(x, str) for x in srcs):
         return {"init": init}
+    qt = c.get("qtype")
     recs = []
     for st in c["steps"]:
         op, si = st[0], st[1]
         src = srcs[si]
         if op == "sub":
-            qs = list(st[2])
-            obj = _guard(lambda: _quiet(lambda: src.subdistribution(qs)))
+            obj = _guard(lambda: _quiet(lambda: src.subdistribution(_qlist(st[2], qt))))
             rec = {"res": obj if isinstance(obj, str) else _canon_dict(obj.distribution_dict),
                    "src_mid": _canon_dict(src.distribution_dict)}
             if st[3] and not isinstance(obj, str):  # the caller edits what it got
                 rd = obj.distribution_dict
                 for kk in list(rd.keys()):
                     rd[kk] = 0.625
-                rd[tuple([7] * len(qs))] = 0.125
+                rd[tuple([7] * len(st[2]))] = 0.125
             del obj
             rec["src"] = _canon_dict(src.distribution_dict)
-        elif op in ("swap", "scale"):
-            dd = src.distribution_dict
-            keys = list(dd.keys())
-            a = keys[st[2] % len(keys)]
-            if op == "swap":
-                b = keys[st[3] % len(keys)]
-                dd[a], dd[b] = dd[b], dd[a]
-            else:
-                dd[a] = dd[a] * 2
+        elif op == "chain":  # the marginal of a marginal
+            obj = _guard(lambda: _quiet(lambda: src.subdistribution(_qlist(st[2], qt))))
+            rec = {"res": obj if isinstance(obj, str) else _canon_dict(obj.distribution_dict)}
+            if not isinstance(obj, str):
+                obj2 = _guard(lambda: _quiet(lambda: obj.subdistribution(_qlist(st[3], qt))))
+                rec["res2"] = obj2 if isinstance(obj2, str) else _canon_dict(obj2.distribution_dict)
+                rec["res_after"] = _canon_dict(obj.distribution_dict)
+            rec["src_mid"] = _canon_dict(src.distribution_dict)
+            rec["src"] = rec["src_mid"]
+        elif op in ("swap", "scale", "rekey"):
+            _edit_in_place(src.distribution_dict, st)
             rec = {"src": _canon_dict(src.distribution_dict)}
         elif op == "replace":  # the old object is dropped, a new one (other content) takes its place
             srcs[si] = None
@@ -893,6 +1112,9 @@ def _run_hist(D, c):
     return {"init": init, "steps": recs}
 
 
+_EDITS = ("swap", "scale", "rekey")
+
+
 def _run_pool(D, c):
     ds = [_guard(lambda s=s: _build_spec(D, s)) for s in c["specs"]]
     init = [x if isinstance(x, str) else _canon_dict(x.distribution_dict) for x in ds]
@@ -900,7 +1122,12 @@ def _run_pool(D, c):
         return {"dists": init}
     pars = [_mk_params(ps) for ps in c["params"]]  # long-lived: every step using params[i] passes the same object
     vals = []
-    for fn, i, j, pi, via in c["steps"]:
+    for st in c["steps"]:
+        if st[0] in _EDITS:  # the caller edits a member in place; recorded: what the member shows afterwards
+            _edit_in_place(ds[st[1]].distribution_dict, st)
+            vals.append({"src": _canon_dict(ds[st[1]].distribution_dict)})
+            continue
+        fn, i, j, pi, via = st
         f = getattr(D, _FNS[fn])
         if via == "eval":
             vals.append(_guard(lambda: _quiet(lambda: _fl(D.evaluate_distribution_distance(
@@ -912,6 +1139,7 @@ def _run_pool(D, c):
 
 def _run_files(D, c):
     import json
+    import pathlib
     ds = [_guard(lambda s=s: _build_spec(D, s)) for s in c["specs"]]
     init = [x if isinstance(x, str) else _canon_dict(x.distribution_dict) for x in ds]
     if any(isinstance(x, str) for x in ds):
@@ -928,6 +1156,9 @@ def _run_files(D, c):
         with open(path) as f:
             return json.load(f)["measurement_outcome_distribution"]
 
+    def target(path):  # what the caller hands to the save functions
+        return pathlib.Path(path) if c.get("ptype") == "pathlib" else path
+
     def load_with(fn, path, mode):
         if mode == "fobj":
             with open(path) as f:
@@ -936,11 +1167,14 @@ def _run_files(D, c):
     try:
         for st in c["steps"]:
             op = st[0]
-            if op == "save":
-                _quiet(lambda: D.save_measurement_outcome_distribution(ds[st[2]], paths[st[1]]))
+            if op in _EDITS:
+                _edit_in_place(ds[st[1]].distribution_dict, st)
+                recs.append({"src": _canon_dict(ds[st[1]].distribution_dict)})
+            elif op == "save":
+                _quiet(lambda: D.save_measurement_outcome_distribution(ds[st[2]], target(paths[st[1]])))
                 recs.append({"saved": [[kk, rat(Fraction(v))] for kk, v in raw(paths[st[1]]).items()]})
             elif op == "saves":
-                _quiet(lambda: D.save_measurement_outcome_distributions([ds[i] for i in st[2]], paths[st[1]]))
+                _quiet(lambda: D.save_measurement_outcome_distributions([ds[i] for i in st[2]], target(paths[st[1]])))
                 recs.append({"saved": [[[kk, rat(Fraction(v))] for kk, v in one.items()] for one in raw(paths[st[1]])]})
             elif op == "load":
                 obj = _guard(lambda: _quiet(lambda: load_with(D.load_measurement_outcome_distribution, paths[st[1]], st[2])))
@@ -972,32 +1206,84 @@ def _track_hist(c, out):
     res = []
     for st, rec in zip(c["steps"], out["steps"]):
         res.append((st, rec, cur[st[1]]))
-        if st[0] != "sub":
+        if st[0] not in ("sub", "chain"):
             cur[st[1]] = rec["src"]
     return res
 
 
-def _pool_pairs(c):
-    pairs = []
-    for _fn, i, j, _pi, _via in c["steps"]:
-        if (i, j) not in pairs:
-            pairs.append((i, j))
-    return pairs
+def _track_pool(c, out):
+    """[(step, value, observed content of member i, of member j, model items of i, of j)] for the distance steps.
+    A member is what its specification says until the history edits it in place; from then on it is what its
+    `distribution_dict` showed after the edit"""
+    obs = list(out["dists"])
+    items = [sp["items"] for sp in c["specs"]]
+    res = []
+    for st, val in zip(c["steps"], out["vals"]):
+        if st[0] in _EDITS:
+            obs[st[1]] = val["src"]
+            items[st[1]] = val["src"]
+            continue
+        res.append((st, val, obs[st[1]], obs[st[2]], items[st[1]], items[st[2]]))
+    return res, obs
 
 
-def _files_used(c):
-    used = []
-    for st in c["steps"]:
-        for i in ([st[2]] if st[0] == "save" else st[2] if st[0] == "saves" else []):
-            if i not in used:
-                used.append(i)
-    return used
+def _pool_plan(c, out):
+    """(requests, index of the request answering each distance step)"""
+    reqs, where, at = [], {}, []
+    for _st, _val, _oi, _oj, ii, ij in _track_pool(c, out)[0]:
+        key = common.canon([ii, ij])
+        if key not in where:
+            where[key] = len(reqs)
+            reqs.append(("distdata", {"p": ii, "q": ij}))
+        at.append(where[key])
+    return reqs, at
+
+
+def _track_files(c, out):
+    """[(step, record, what the step writes / what the file read holds)]: for save steps the list of
+    (observed content, model items, normalize flag for the model) of the objects written, for load steps the same list
+    as recorded when the path was last written"""
+    obs = list(out["dists"])
+    items = [(sp["items"], sp.get("normalize", True)) for sp in c["specs"]]
+    content = {}
+    res = []
+    for st, rec in zip(c["steps"], out["steps"]):
+        op = st[0]
+        if op in _EDITS:
+            obs[st[1]] = rec["src"]
+            items[st[1]] = (rec["src"], False)
+            res.append((st, rec, None))
+        elif op in ("save", "saves"):
+            ids = [st[2]] if op == "save" else list(st[2])
+            content[st[1]] = [(obs[i], items[i][0], items[i][1]) for i in ids]
+            res.append((st, rec, content[st[1]]))
+        elif op in ("load", "loads"):
+            res.append((st, rec, content[st[1]]))
+        else:
+            res.append((st, rec, None))
+    return res, obs
+
+
+def _files_plan(c, out):
+    """(requests, {canonical (items, normalize) -> index of the request})"""
+    reqs, where = [], {}
+    for st, _rec, held in _track_files(c, out)[0]:
+        if st[0] in ("save", "saves"):
+            for _obs, its, nz in held:
+                key = common.canon([its, nz])
+                if key not in where:
+                    where[key] = len(reqs)
+                    reqs.append(("saveload", {"items": its, "normalize": nz}))
+    return reqs, where
 
 
 def requests(c, out):
     k = c["kind"]
     if k == "construct":
-        return [("construct", {"items": c["items"], "normalize": c["normalize"]})]
+        reqs = [("construct", {"items": c["items"], "normalize": c["normalize"]})]
+        if "items_third" in out:
+            reqs.append(("construct", {"items": out["items_third"], "normalize": c["normalize"]}))
+        return reqs
     if k == "subdist":
         return [("subdist", {"items": c["items"], "normalize": c["normalize"], "qubits": c["qubits"]})]
     if k == "saveload":
@@ -1007,15 +1293,20 @@ def requests(c, out):
     if k == "hist":
         reqs = [("construct", {"items": s["items"], "normalize": s.get("normalize", True)}) for s in c["specs"]]
         if "steps" in out:
-            for st, _rec, before in _track_hist(c, out):
-                if st[0] == "sub":  # the model answers from the content the object has at that moment
+            for st, rec, before in _track_hist(c, out):
+                if st[0] in ("sub", "chain"):  # the model answers from the content the object has at that moment
                     reqs.append(("subdist", {"items": before, "normalize": False, "qubits": st[2]}))
+                if st[0] == "chain" and not isinstance(rec["res"], str):
+                    reqs.append(("subdist", {"items": rec["res"], "normalize": False, "qubits": st[3]}))
         return reqs
     if k == "pool":
-        return [("distdata", {"p": c["specs"][i]["items"], "q": c["specs"][j]["items"]}) for i, j in _pool_pairs(c)]
+        if "vals" not in out:
+            return [("distdata", {"p": sp["items"], "q": sp["items"]}) for sp in c["specs"]]
+        return _pool_plan(c, out)[0]
     if k == "files":
-        return [("saveload", {"items": c["specs"][i]["items"], "normalize": c["specs"][i].get("normalize", True)})
-                for i in _files_used(c)]
+        if "steps" not in out:
+            return [("saveload", {"items": sp["items"], "normalize": sp.get("normalize", True)}) for sp in c["specs"]]
+        return _files_plan(c, out)[0]
     return []
 
 
@@ -1030,8 +1321,8 @@ def _same_dict(impl, model, exact):
         if exact:
             if a != b:
                 return f"value at {k}: impl {a} model {b} (exact comparison)"
-        elif abs(a - b) > Fraction(1, 10 ** 12) * max(1, abs(b)):
-            return f"value at {k}: impl {float(a)} model {float(b)}"
+        elif abs(a - b) > Fraction(1, 10 ** 12) * abs(b):  # relative: all sums are of non-negative numbers
+            return f"value at {k}: impl {float(a)!r} model {float(b)!r}"
     return None
 
 
@@ -1042,8 +1333,18 @@ def _kernel(sigma, x, y):
 
 
 def _mmd(codes, t, m, sigma):
+    """the quadratic form sum_ij d_i k(x_i, x_j) d_j of the difference d = t - m (Gaussian kernel on the integer codes)"""
     d = [a - b for a, b in zip(t, m)]
-    return sum(d[i] * _kernel(sigma, codes[i], codes[j]) * d[j] for i in range(len(d)) for j in range(len(d)))
+    if len(d) <= 12:
+        return sum(d[i] * _kernel(sigma, codes[i], codes[j]) * d[j] for i in range(len(d)) for j in range(len(d)))
+    import numpy as np  # the same sum for many outcomes: exact integer squared distances, then floats
+    x = np.array([int(v) for v in codes], dtype=object)
+    d2 = ((x[:, None] - x[None, :]) ** 2).astype(float)
+    sig = sigma if isinstance(sigma, list) else [sigma]
+    with np.errstate(all="ignore"):
+        kern = sum(np.exp(-(1.0 / (2 * sg)) * d2) for sg in sig) / len(sig)
+    dv = np.array(d, dtype=float)
+    return float(dv @ kern @ dv)
 
 
 def _nll(t, m, eps):
@@ -1065,7 +1366,13 @@ def _cmp_num(got, want, tol=_TOL):
     return abs(got - want) <= tol * max(1.0, abs(got), abs(want))
 
 
-def _model_values(r, ps_m, ps_e):
+def _cmp_mmd(got, want):
+    if isinstance(got, str) or isinstance(want, str):
+        return got == want
+    return math.isfinite(got) and abs(got - want) <= 1e-12 + _TOL * abs(want)
+
+
+def _model_values(r, ps_m, ps_e, need=("mmd", "nll")):
     """the seven distance values recomputed from the model's discrete data (union of supports, integer codes, value
     vectors) with math.exp / math.log; `None` for MMD entries of registers the model's arithmetic does not cover"""
     rows = r["rows"]
@@ -1078,6 +1385,8 @@ def _model_values(r, ps_m, ps_e):
         want = {"mmd_pq": None, "mmd_qp": None, "mmd_pp": None}
     elif isinstance(r["codes"], str):
         want = {"mmd_pq": r["codes"], "mmd_qp": r["codes"]}
+    elif "mmd" not in need:
+        want = {}
     else:
         want = {"mmd_pq": _mmd(r["codes"], t, m, sigma), "mmd_qp": _mmd(r["codes"], m, t, sigma)}
     if not wide:
@@ -1113,6 +1422,10 @@ def compare(c, out, resp):
             msg = _same_dict(out["res_after_input_edit"], r, ex) or _same_dict(out["res_after_second"], r, ex)
             if msg:
                 return "constructor, first object looked at again later: " + msg
+        if "res_third" in out and len(resp) > 1:
+            msg = _same_dict(out["res_third"], resp[1], False)
+            if msg:
+                return f"constructor, the same dictionary object with new content {out['items_third']}: " + msg
         return None
     if k == "subdist":
         if isinstance(out.get("source"), str) or isinstance(r.get("source"), str):
@@ -1158,7 +1471,7 @@ def compare(c, out, resp):
                 if not abs(out[name]) <= 1e-12:
                     return f"mmd(p,p): impl {out[name]} model 0"
                 continue
-            if not _cmp_num(out[name], v):
+            if not (_cmp_mmd(out[name], v) if name.startswith("mmd") else _cmp_num(out[name], v)):
                 return f"{name}: impl {out[name]} value from the model's data {v}"
         return None
     if k == "hist":
@@ -1171,7 +1484,7 @@ def compare(c, out, resp):
             return None
         at = n
         for idx, (st, rec, _before) in enumerate(_track_hist(c, out)):
-            if st[0] != "sub":
+            if st[0] not in ("sub", "chain"):
                 continue
             r = resp[at]
             at += 1
@@ -1182,60 +1495,67 @@ def compare(c, out, resp):
                 msg = _same_dict(a, b, ex)
                 if msg:
                     return f"step {idx} {st} of the history: {name}: {msg}"
+            if st[0] == "chain" and not isinstance(rec["res"], str):
+                r = resp[at]
+                at += 1
+                if isinstance(r.get("source"), str):
+                    return f"step {idx}: the model rejects the marginal {rec['res']}: {r['source']}"
+                for a, b, name in ((rec["res2"], r["result"], "marginal of the marginal"),
+                                   (rec["res_after"], r["source_after"], "first marginal after the second call")):
+                    msg = _same_dict(a, b, ex)
+                    if msg:
+                        return f"step {idx} {st} of the history: {name}: {msg}"
         return None
     if k == "pool":
         if "vals" not in out:
             ok_model = all("rows" in x for x in resp)
             return None if not ok_model else f"construction of the pool: impl {out.get('dists')} model accepts all"
-        by = dict(zip(_pool_pairs(c), resp))
-        for idx, (st, val) in enumerate(zip(c["steps"], out["vals"])):
-            fn, i, j, pi, _via = st
-            r = by[(i, j)]
+        _reqs, at = _pool_plan(c, out)
+        for idx, ((st, val, _oi, _oj, _ii, _ij), ri) in enumerate(zip(_track_pool(c, out)[0], at)):
+            fn, _i, _j, pi, _via = st
+            r = resp[ri]
             if "rows" not in r:
                 return f"construction of the pool: model {r}"
-            want = _model_values(r, c["params"][pi], c["params"][pi])
+            want = _model_values(r, c["params"][pi], c["params"][pi], ("mmd",) if fn == "mmd" else ("nll",))
             v = want["mmd_pq" if fn == "mmd" else "nll_pq" if fn == "nll" else "jsd_pq"]
             if v is None:
                 continue
-            if not _cmp_num(val, v):
-                return f"step {idx} {st} of the history: impl {val} value from the model's data {v}"
+            if not (_cmp_mmd(val, v) if fn == "mmd" else _cmp_num(val, v)):
+                return f"distance call no. {idx} {st} of the history: impl {val} value from the model's data {v}"
         return None
     if k == "files":
         if "steps" not in out:
             return None if any(isinstance(x.get("source"), str) for x in resp) else \
                 f"construction: impl {out.get('dists')} model accepts all"
-        by = dict(zip(_files_used(c), resp))
-        for i, r in by.items():
-            if isinstance(r.get("source"), str):
-                return f"object {i}: impl accepted, model {r['source']}"
-            msg = _same_dict(out["dists"][i], r["source"], ex)
-            if msg:
-                return f"object {i}: {msg}"
-        content = {}
-        for idx, (st, rec) in enumerate(zip(c["steps"], out["steps"])):
+        _reqs, where = _files_plan(c, out)
+        for idx, (st, rec, held) in enumerate(_track_files(c, out)[0]):
             op = st[0]
             if op in ("save", "saves"):
-                ids = [st[2]] if op == "save" else list(st[2])
-                content[st[1]] = ids
                 saved = [rec["saved"]] if op == "save" else rec["saved"]
-                if len(saved) != len(ids):
-                    return f"step {idx} {st}: {len(saved)} dictionaries written for {len(ids)} distributions"
-                for i, sv in zip(ids, saved):
-                    if [x for x, _ in sv] != [x for x, _ in by[i]["saved"]]:
-                        return f"step {idx} {st}: saved keys: impl {[x for x, _ in sv]} model {[x for x, _ in by[i]['saved']]}"
-                    if [unrat(v) for _, v in sv] != [unrat(v) for _, v in out["dists"][i]]:
-                        return f"step {idx} {st}: saved values differ from the stored values of object {i}"
+                if len(saved) != len(held):
+                    return f"step {idx} {st}: {len(saved)} dictionaries written for {len(held)} distributions"
+                for (obs, its, nz), sv in zip(held, saved):
+                    r = resp[where[common.canon([its, nz])]]
+                    if isinstance(r.get("source"), str):
+                        return f"step {idx} {st}: impl holds {obs}, model {r['source']}"
+                    msg = _same_dict(obs, r["source"], ex)
+                    if msg:
+                        return f"step {idx} {st}: object written: {msg}"
+                    if [x for x, _ in sv] != [x for x, _ in r["saved"]]:
+                        return f"step {idx} {st}: saved keys: impl {[x for x, _ in sv]} model {[x for x, _ in r['saved']]}"
+                    if [unrat(v) for _, v in sv] != [unrat(v) for _, v in obs]:
+                        return f"step {idx} {st}: saved values differ from the stored values {obs}"
             elif op in ("load", "loads"):
-                ids = content[st[1]]
                 got = [rec["loaded"]] if op == "load" else rec["loaded"]
                 if isinstance(got, str):
-                    got = [got] * len(ids)
-                if len(got) != len(ids):
-                    return f"step {idx} {st}: {len(got)} distributions loaded, {len(ids)} were saved"
-                for i, g in zip(ids, got):
-                    msg = _same_dict(g, by[i]["loaded"], ex)
+                    got = [got] * len(held)
+                if len(got) != len(held):
+                    return f"step {idx} {st}: {len(got)} distributions loaded, {len(held)} were saved"
+                for (obs, its, nz), g in zip(held, got):
+                    r = resp[where[common.canon([its, nz])]]
+                    msg = _same_dict(g, r["loaded"], ex)
                     if msg:
-                        return f"step {idx} {st}: loaded (object {i}): {msg}"
+                        return f"step {idx} {st}: loaded ({obs}): {msg}"
         return None
     return None
 
@@ -1283,46 +1603,68 @@ def _classify_input(items):
     return "valid", keys, vals
 
 
+def _off(g, want, rel):
+    """is the stored number g off the wanted one by more than the RELATIVE tolerance (a wanted 0 must be stored as 0)"""
+    g, want = Fraction(g), Fraction(want)
+    return abs(g - want) > Fraction(rel) * abs(want)
+
+
+def _judge_construct(items, normalize, res, via=None, ctx=""):
+    """the constructor sentences for one construction: `res` is what the object holds (or the rejection)"""
+    cls, keys, vals = _classify_input(items)
+    if cls == "invalid":
+        if not isinstance(res, str):
+            why = ("empty" if not keys else "negative value" if any(v < 0 for v in vals)
+                   else "unequal key lengths" if len({len(x) for x in keys}) != 1 else "negative entry")
+            return ("construct-accepts-invalid", f"{ctx}input with {why} was accepted: {items} -> {res}")
+        return None
+    if isinstance(res, str):
+        if cls == "valid":
+            return ("construct-rejects-valid", f"{ctx}well-formed input {items} rejected with {res}")
+        return None
+    got = [(tuple(kk), unrat(v)) for kk, v in res]
+    if any(v < 0 for _, v in got):
+        return ("construct-negative-probability", f"{ctx}stored values {res} contain a negative number")
+    s = sum(float(v) for _, v in got)
+    if normalize and abs(s - 1) > 2e-9:
+        return ("construct-not-normalised", f"{ctx}stored values sum to {s!r} with normalisation on ({items})")
+    if cls == "valid" and via == "probs":
+        tot = sum(vals)
+        gm, wm = dict(got), dict(zip(keys, vals))
+        if len(gm) != len(got) or not set(gm) <= set(wm):
+            return ("construct-keys", f"stored keys {[kk for kk, _ in got]} for the probability vector {vals}")
+        for kk, v in wm.items():
+            if _off(gm.get(kk, 0), v / tot, "2e-9"):
+                return ("construct-proportions", f"probability vector {[float(x) for x in vals]}: value at {kk} is "
+                        f"{float(gm.get(kk, 0))!r}, proportional share is {float(v / tot)!r}")
+        return None
+    if cls == "valid":
+        if [kk for kk, _ in got] != keys:
+            return ("construct-keys", f"{ctx}stored keys {[kk for kk, _ in got]} differ from the input keys {keys}")
+        tot = sum(vals)
+        for (kk, g), v in zip(got, vals):
+            want = v / tot if normalize else v
+            if _off(g, want, "2e-9"):
+                return ("construct-proportions", f"{ctx}input {items} (normalize={normalize}): value at {kk} is "
+                        f"{float(g)!r}, proportional share is {float(want)!r}")
+    return None
+
+
 def _oracle_construct(c, out):
     cls, keys, vals = _classify_input(c["items"])
     res = out["res"]
     if not out.get("input_intact", True):
         return ("construct-mutates-input", f"the constructor (normalize={c['normalize']}) modified the dictionary "
                 f"{c['items']} passed to it")
-    if cls == "invalid":
-        if not isinstance(res, str):
-            why = ("empty" if not keys else "negative value" if any(v < 0 for v in vals)
-                   else "unequal key lengths" if len({len(x) for x in keys}) != 1 else "negative entry")
-            return ("construct-accepts-invalid", f"input with {why} was accepted: {c['items']} -> {res}")
-        return None
-    if isinstance(res, str):
-        if cls == "valid":
-            return ("construct-rejects-valid", f"well-formed input {c['items']} rejected with {res}")
-        return None
-    got = [(tuple(kk), unrat(v)) for kk, v in res]
-    if any(v < 0 for _, v in got):
-        return ("construct-negative-probability", f"stored values {res} contain a negative number")
-    s = sum(float(v) for _, v in got)
-    if c["normalize"] and abs(s - 1) > 2e-9:
-        return ("construct-not-normalised", f"stored values sum to {s!r} with normalisation on ({c['items']})")
-    if cls == "valid" and c.get("via") == "probs":
-        tot = sum(vals)
-        gm, wm = dict(got), dict(zip(keys, vals))
-        if len(gm) != len(got) or not set(gm) <= set(wm):
-            return ("construct-keys", f"stored keys {[kk for kk, _ in got]} for the probability vector {vals}")
-        for kk, v in wm.items():
-            if abs(float(gm.get(kk, 0)) - float(v / tot)) > 2e-9:
-                return ("construct-proportions", f"probability vector {[float(x) for x in vals]}: value at {kk} is "
-                        f"{float(gm.get(kk, 0))!r}, proportional share is {float(v / tot)!r}")
-        return None
-    if cls == "valid":
-        if [kk for kk, _ in got] != keys:
-            return ("construct-keys", f"stored keys {[kk for kk, _ in got]} differ from the input keys {keys}")
-        tot = sum(vals)
-        for (kk, g), v in zip(got, vals):
-            want = v / tot if c["normalize"] else v
-            if abs(float(g) - float(want)) > 2e-9 * max(1.0, abs(float(want))):
-                return ("construct-proportions", f"value at {kk} is {float(g)!r}, proportional share is {float(want)!r}")
+    f = _judge_construct(c["items"], c["normalize"], res, c.get("via"))
+    if f or isinstance(res, str):
+        return f
+    if "res_third" in out and all(kk is not None for kk, _ in out["items_third"]):
+        # the caller's dictionary OBJECT is the same, its content is not: the new object is judged on the new content
+        f = _judge_construct(out["items_third"], c["normalize"], out["res_third"], None,
+                             f"a dictionary that held {c['items']} when a first object was built from it, now updated: ")
+        if f:
+            return f
     # "always holds ...": the object keeps its content whatever happens later to the dictionary it was built from,
     # and two objects built from one dictionary do not share state
     if "res_second" in out and cls == "valid":
@@ -1362,9 +1704,26 @@ def _show_hist_steps(steps):
             out.append(f"values no. {st[2]} and {st[3]} (mod size) of d{st[1]}.distribution_dict swapped")
         elif st[0] == "scale":
             out.append(f"value no. {st[2]} (mod size) of d{st[1]}.distribution_dict doubled")
-        else:
+        elif st[0] == "rekey":
+            out.append(f"outcome no. {st[2]} (mod size) of d{st[1]}.distribution_dict renamed to {tuple(st[3])}")
+        elif st[0] == "chain":
+            out.append(f"d{st[1]}.subdistribution({st[2]}).subdistribution({st[3]})")
+        elif st[0] == "replace":
             out.append(f"d{st[1]} = a new object built like d{st[2]}")
+        elif st[0] in _FNS:
+            out.append(f"{st[0]}(d{st[1]}, d{st[2]}, par{st[3]})" + (" via evaluate_distribution_distance" if st[4] == "eval" else ""))
+        else:
+            out.append(str(st))
     return "; ".join(out) if out else "nothing"
+
+
+def _judge_specs(specs, built):
+    """the constructor sentences for every object a history is run on"""
+    for i, (sp, x) in enumerate(zip(specs, built)):
+        f = _judge_construct(sp["items"], sp.get("normalize", True), x, None, f"object d{i}: ")
+        if f:
+            return f
+    return None
 
 
 def _judge_marginal(src, qs, res, ctx=""):
@@ -1390,7 +1749,7 @@ def _judge_marginal(src, qs, res, ctx=""):
     if set(got) != set(want):
         return (sig, f"{ctx}marginal of {src} on {qs} has outcomes {sorted(got)}, the projections are {sorted(want)}")
     for nk, v in want.items():
-        if abs(float(got[nk]) - float(v)) > 1e-12 * max(1.0, float(v)):
+        if _off(got[nk], v, "1e-12"):
             return (sig, f"{ctx}marginal of {src} on {qs} at {nk} is {float(got[nk])!r}, the sum of the projecting "
                     f"outcomes is {float(v)!r}")
     return None
@@ -1398,11 +1757,9 @@ def _judge_marginal(src, qs, res, ctx=""):
 
 def _oracle_subdist(c, out):
     src = out.get("source")
-    if isinstance(src, str):
-        cls, _, _ = _classify_input(c["items"])
-        if cls == "valid":
-            return ("construct-rejects-valid", f"well-formed input {c['items']} rejected with {src}")
-        return None
+    f = _judge_construct(c["items"], c["normalize"], src)
+    if f or isinstance(src, str):
+        return f
     if out["source_after"] != src:
         return ("subdistribution-mutates-source",
                 f"source was {src} before and {out['source_after']} after subdistribution({c['qubits']})")
@@ -1418,11 +1775,9 @@ def _oracle_subdist(c, out):
 
 
 def _oracle_hist(c, out):
-    for sp, x in zip(c["specs"], out["init"]):
-        if isinstance(x, str):
-            cls, _, _ = _classify_input(sp["items"])
-            if cls == "valid":
-                return ("construct-rejects-valid", f"well-formed input {sp['items']} rejected with {x}")
+    f = _judge_specs(c["specs"], out["init"])
+    if f:
+        return f
     if "steps" not in out:
         return None
     for idx, (st, rec, before) in enumerate(_track_hist(c, out)):
@@ -1438,6 +1793,21 @@ def _oracle_hist(c, out):
                 return ("subdistribution-result-shares-state",
                         f"{ctx}editing the object returned by subdistribution({st[2]}) changed the source from {before} "
                         f"to {rec['src']}")
+        elif st[0] == "chain":
+            if rec["src_mid"] != before:
+                return ("subdistribution-mutates-source",
+                        f"{ctx}content was {before} before and {rec['src_mid']} after subdistribution({st[2]})")
+            f = _judge_marginal(before, st[2], rec["res"], ctx)
+            if f:
+                return f
+            if not isinstance(rec["res"], str):  # the marginal object is a distribution like any other
+                ctx2 = ctx + f"m = d{st[1]}.subdistribution({st[2]}) holds {rec['res']}; m: "
+                f = _judge_marginal(rec["res"], st[3], rec["res2"], ctx2)
+                if f:
+                    return f
+                if rec["res_after"] != rec["res"]:
+                    return ("subdistribution-mutates-source",
+                            f"{ctx2}content was {rec['res']} before and {rec['res_after']} after subdistribution({st[3]})")
         elif st[0] == "replace":
             if rec["src"] != out["init"][st[2]]:
                 return ("construct-not-repeatable", f"{ctx}a second object built from {c['specs'][st[2]]['items']} holds "
@@ -1461,11 +1831,9 @@ def _judge_roundtrip(src, ld, what):
 
 def _oracle_saveload(c, out):
     src = out.get("source")
-    if isinstance(src, str):
-        cls, _, _ = _classify_input(c["items"])
-        if cls == "valid":
-            return ("construct-rejects-valid", f"well-formed input {c['items']} rejected with {src}")
-        return None
+    f = _judge_construct(c["items"], c["normalize"], src)
+    if f or isinstance(src, str):
+        return f
     if out["source_after"] != src:
         return ("save-mutates-source", "saving modified the distribution")
     if not out.get("copies_equal", True):
@@ -1475,39 +1843,33 @@ def _oracle_saveload(c, out):
 
 def _oracle_files(c, out):
     ds = out["dists"]
-    for sp, x in zip(c["specs"], ds):
-        if isinstance(x, str):
-            cls, _, _ = _classify_input(sp["items"])
-            if cls == "valid":
-                return ("construct-rejects-valid", f"well-formed input {sp['items']} rejected with {x}")
+    f = _judge_specs(c["specs"], ds)
+    if f:
+        return f
     if "steps" not in out:
         return None
-    content = {}
-    for idx, (st, rec) in enumerate(zip(c["steps"], out["steps"])):
+    track, final = _track_files(c, out)
+    for idx, (st, rec, held) in enumerate(track):
         op = st[0]
-        if op == "save":
-            content[st[1]] = [st[2]]
-        elif op == "saves":
-            content[st[1]] = list(st[2])
-        elif op in ("load", "loads"):
-            ids = content[st[1]]
-            what = (f"{_show_specs(c['specs'])}; steps [op, file no., objects / how] {c['steps'][:idx]}, then {st} "
-                    f"(the file holds {['d%d' % i for i in ids]})")
+        if op in ("load", "loads"):
+            what = (f"{_show_specs(c['specs'])}" + (", paths given to the savers as pathlib.Path" if c.get("ptype") else "")
+                    + f"; steps [op, file no. (edits: object no.), ...] {c['steps'][:idx]}, then {st} "
+                    f"(the file was written from objects holding {[o for o, _, _ in held]})")
             got = rec["loaded"]
             if op == "load":
                 got = [got]
             elif isinstance(got, str):
-                got = [got] * len(ids)
-            if len(got) != len(ids):
-                if all(math.isclose(sum(float(unrat(v)) for _, v in ds[i]), 1) for i in ids):
-                    return ("save-load-roundtrip", f"{what}: {len(ids)} distributions saved, {len(got)} loaded")
+                got = [got] * len(held)
+            if len(got) != len(held):
+                if all(math.isclose(sum(float(unrat(v)) for _, v in o), 1) for o, _, _ in held):
+                    return ("save-load-roundtrip", f"{what}: {len(held)} distributions saved, {len(got)} loaded")
                 continue
-            for i, g in zip(ids, got):
-                f = _judge_roundtrip(ds[i], g, what)
+            for (o, _its, _nz), g in zip(held, got):
+                f = _judge_roundtrip(o, g, what)
                 if f:
                     return f
-    if out["dists_after"] != ds:
-        return ("save-mutates-source", f"saving / loading modified a distribution: {ds} -> {out['dists_after']}")
+    if out["dists_after"] != final:
+        return ("save-mutates-source", f"saving / loading modified a distribution: {final} -> {out['dists_after']}")
     return None
 
 
@@ -1525,7 +1887,7 @@ def _judge_mmd(val, P, Q, sigma, what):
     defined, a non-negative number, zero between equal distributions, and the quadratic form of the difference"""
     union, t, m = _vectors(P, Q)
     bits = all(len(kk) >= 1 and all(e in (0, 1) for e in kk) for kk in union)
-    wide = bits and len(union[0]) >= 32
+    wide = False  # registers of width >= 32 are judged like any other since the repair b6e2a42
 
     def sg(x):
         return "mmd-wide-register-overflow" if wide else x
@@ -1540,7 +1902,7 @@ def _judge_mmd(val, P, Q, sigma, what):
     if bits:
         codes = [int("".join(map(str, kk)), 2) for kk in union]
         ref = _mmd(codes, t, m, sigma)
-        if abs(ref - val) > _TOL * max(1.0, abs(ref)):
+        if abs(ref - val) > 1e-12 + _TOL * abs(ref):  # (both are sums of terms |d_i d_j k_ij| <= 1: rounding ~1e-15)
             return (sg("mmd-value"), f"mmd = {val!r}, quadratic form of the difference = {ref!r}: {what}")
     return None
 
@@ -1584,6 +1946,9 @@ def _oracle_dist(c, out):
             if cls == "valid" and out.get(name) != "ok":
                 return ("construct-rejects-valid", f"well-formed input {c[name]} rejected with {out.get(name)}")
         return None
+    f = _judge_specs([{"items": c["p"]}, {"items": c["q"]}], [out["p"], out["q"]])
+    if f:
+        return f
     if not out.get("args_intact", True):
         return ("distance-mutates-argument", "a distance function modified one of its arguments")
     P, Q = _as_map(out["p"]), _as_map(out["q"])
@@ -1592,7 +1957,7 @@ def _oracle_dist(c, out):
     _, eps = _sigma_eps(pe)
     union, t, m = _vectors(P, Q)
     bits = _is_bits(out["p"]) and _is_bits(out["q"])
-    wide = bits and len(union[0]) >= 32
+    wide = False  # registers of width >= 32 are judged like any other since the repair b6e2a42
     what = f"p={out['p']} q={out['q']} sigma={sigma} epsilon={eps}"
 
     def mmd_part():
@@ -1617,34 +1982,42 @@ def _oracle_dist(c, out):
                 or _judge_jsd(nl[3], m, t, eps, "jsd(q,p), " + what)
                 or _judge_nll(nl[4], t, m, eps, len(union),
                               "p under q asked again with the same parameter dictionary, " + what))
-    if wide or not bits:  # the MMD failure of these classes is a known finding: let it not hide the other sentences
+    if not bits:  # the MMD failure of this class is a known finding: let it not hide the other sentences
         return nll_part() or mmd_part()
     return mmd_part() or nll_part()
 
 
 def _oracle_pool(c, out):
-    for sp, x in zip(c["specs"], out["dists"]):
-        if isinstance(x, str):
-            cls, _, _ = _classify_input(sp["items"])
-            if cls == "valid":
-                return ("construct-rejects-valid", f"well-formed input {sp['items']} rejected with {x}")
+    f = _judge_specs(c["specs"], out["dists"])
+    if f:
+        return f
     if "vals" not in out:
         return None
-    Ds = [_as_map(d) for d in out["dists"]]
+    track, final = _track_pool(c, out)
     known_first = None
     seen = {}
-    for idx, (st, val) in enumerate(zip(c["steps"], out["vals"])):
+    shown = []
+    at = 0
+    for idx, st in enumerate(c["steps"]):
+        if st[0] in _EDITS:  # answers given before the edit say nothing about the object as it is now
+            seen = {kk: v for kk, v in seen.items() if st[1] not in (kk[1], kk[2])}
+            shown.append(st)
+            continue
+        _st, val, oi, oj, _ii, _ij = track[at]
+        at += 1
         fn, i, j, pi, via = st
         sigma, eps = _sigma_eps(c["params"][pi])
-        union, t, m = _vectors(Ds[i], Ds[j])
+        Pi, Pj = _as_map(oi), _as_map(oj)
+        union, t, m = _vectors(Pi, Pj)
         what = (f"{_show_specs(c['specs'])}; parameter dictionaries par0..par{len(c['params']) - 1} = {c['params']} "
-                f"(each ONE object, re-used); after the calls "
-                f"{[f'{a}(d{b},d{d},par{e})' for a, b, d, e, _ in c['steps'][:idx]]}: {fn}(d{i}, d{j}, par{pi})"
-                + (" through evaluate_distribution_distance" if via == "eval" else ""))
-        wide = len(union[0]) >= 32
+                f"(each ONE object, re-used); after {_show_hist_steps(shown)}: {fn}(d{i}, d{j}, par{pi})"
+                + (" through evaluate_distribution_distance" if via == "eval" else "")
+                + f" where d{i} holds {oi} and d{j} holds {oj}")
+        shown.append(st)
+        wide = False
         back = seen.get((fn, j, i, pi))
         if fn == "mmd":
-            f = _judge_mmd(val, Ds[i], Ds[j], sigma, what)
+            f = _judge_mmd(val, Pi, Pj, sigma, what)
             if not f and back is not None:
                 f = _judge_sym(back, val, "mmd-not-symmetric", what, wide)
         elif fn == "nll":
@@ -1659,8 +2032,8 @@ def _oracle_pool(c, out):
             else:
                 return f
         seen[(fn, i, j, pi)] = val
-    if out["dists_after"] != out["dists"]:
-        return ("distance-mutates-argument", f"a distance function modified a distribution: {out['dists']} -> "
+    if out["dists_after"] != final:
+        return ("distance-mutates-argument", f"a distance function modified a distribution: {final} -> "
                 f"{out['dists_after']}")
     return known_first
 
@@ -1677,12 +2050,17 @@ def distribution(cases, outs):
             widths[len(ks[0])] = widths.get(len(ks[0]), 0) + 1
         vs = list(o.values()) if isinstance(o, dict) else []
         for rec in (o.get("steps") or [] if isinstance(o, dict) else []):
-            vs += [rec.get("res"), rec.get("loaded")] if isinstance(rec, dict) else []
+            vs += [rec.get("res"), rec.get("res2"), rec.get("loaded")] if isinstance(rec, dict) else []
         vs += (o.get("vals") or []) if isinstance(o, dict) else []
+        vs = [v for v in vs if isinstance(v, str)]
         for v in vs:
             if isinstance(v, str) and v.startswith("err:"):
                 errs[v] = errs.get(v, 0) + 1
     return {"widths": {str(k): v for k, v in sorted(widths.items())}, "errors_hit": errs,
             "exact_compared": sum(1 for c in cases if c.get("exact")),
             "reordered_marginals": sum(1 for c in cases if c["kind"] == "subdist" and c["qubits"] != sorted(c["qubits"])),
-            "history_steps": sum(len(c["steps"]) for c in cases if c["kind"] in ("hist", "pool", "files"))}
+            "history_steps": sum(len(c["steps"]) for c in cases if c["kind"] in ("hist", "pool", "files")),
+            "dictionaries_of_64_or_more_outcomes": sum(
+                1 for c in cases if max([len(c.get("items", []))] + [len(c.get(x, [])) for x in ("p", "q")]
+                                        + [len(sp["items"]) for sp in c.get("specs", [])]) >= 64),
+            "registers_of_width_32_or_more": sum(1 for k in widths if k >= 32 for _ in range(widths[k]))}
